@@ -176,6 +176,9 @@ def run_harness(ctx, binp, label, vals, scheds, par):
                         except ValueError:
                             break
             if rr and rr[0].get("ev") == "Reset":
+                if rr[-1].get("ev") != "End":
+                    # cut short by the death of the process: an event whose action never returned is incomplete
+                    rr = [r for r in rr if r["ev"] == "Reset" or "pool" in r]
                 rows += rr
                 complete += 1 if rr[-1].get("ev") == "End" else 0
     crashed = None
